@@ -434,7 +434,7 @@ class ValueOracle(Observer):
             if i.ids is None:
                 # (a composite such as multi_matmul may hand out a view of an internal result, as its
                 # NumPy namesake does: then .base is that hidden tensor, the owner of the memory)
-                hidden_owner = b is not None and s.base is not None and d.base is not None and b.base is None and b.data.size and np.shares_memory(b.data, d) and not any(b is x for x in w.T.values())
+                hidden_owner = b is not None and d.base is not None and b.base is None and b.data.size and np.shares_memory(b.data, d) and not any(b is x for x in w.T.values())
                 if b is not None and not hidden_owner:
                     if w.violation(self.prop, "C04.base", f"step {w.nstep} ({evt}): handle {h} owns its memory but .base is not None", tag=f"C04.base/owner_has_base/{evt}"):
                         return
@@ -442,6 +442,19 @@ class ValueOracle(Observer):
                 o = i.fam.owner_ref() if i.fam.owner_ref is not None else None
                 if b is None or (o is not None and b is not o):
                     if d.size > 0:
+                        same = b is None and any(x is not t and x.data is d for x in w.T.values())
+                        if same:
+                            # NumPy handed back the operand array itself (squeeze with nothing to
+                            # squeeze, also when MyGrad replays the view after an in-place update):
+                            # listed finding; its consequences (values, sharing) are not judged
+                            # again in this run
+                            r = w.violation(self.prop, "C04.base", f"step {w.nstep} ({evt}): handle {h} wraps the very array of another tensor but .base is None", tag=f"C04.base/view_wrong_base/{evt}/same_array_object")
+                            for ki in w.info.values():
+                                ki.foreign = True
+                            w.grad_poisoned = True
+                            if r:
+                                return
+                            return
                         if w.violation(self.prop, "C04.base", f"step {w.nstep} ({evt}): handle {h} is a view but .base is {'None' if b is None else 'a different tensor'}", tag=f"C04.base/view_wrong_base/{evt}"):
                             return
             del b
